@@ -74,9 +74,9 @@ func (pConn *PFCPConn) handleSessionEstablishmentRequest(msg message.Message) (m
 		return seres, errProcess(err)
 	}
 
-	if strings.Compare(nodeID, pConn.nodeID.remote) != 0 {
+	if remote := pConn.remoteNodeID(); strings.Compare(nodeID, remote) != 0 {
 		logger.PfcpLog.Warnln("association not found for Establishment request",
-			"with nodeID:", nodeID, ", association NodeID:", pConn.nodeID.remote)
+			"with nodeID:", nodeID, ", association NodeID:", remote)
 		return errProcessReply(ErrAssocNotFound, ie.CauseNoEstablishedPFCPAssociation)
 	}
 
